@@ -115,7 +115,7 @@ PROPS = {
                 'not decided: the symbol->string / string->symbol round trip (str code in builtin/symbol.rs and parse.rs); production routes other than Heap::put (reader, macro output) are assumed to go through put',
                 'same trusted base as C03',
             ]},
-    'C04': {'groups': ['compile', 'runone', 'cont'], 'search': 'search_tail',
+    'C04': {'groups': ['compile', 'runone', 'cont', 'heap'], 'search': 'search_tail',
             'kani': [
                 {'harness': 'vcell_accessors', 'file': 'src/vm/vcell.rs', 'kind': 'complete', 'timeout': 600, 'what': 'VCell::as_ptr/as_argc/as_car/as_cdr/as_bp/as_ep/as_ip/is_pair answer Ok(payload) exactly on the matching variant (their contracts are assumed on the Verus side)'},
             ],
@@ -130,20 +130,20 @@ PROPS = {
                 'Cell accessor contracts (car, cdr, is_pair, is_nil, is_list, collect_vec, clone) assumed from their one-line bodies in cell.rs; Lambda::emit and Lambda::argc are verified (unit lambda; a Vec holds at most isize::MAX elements: axiom_vec_len); Lambda::binding_location assumed to answer an argument index below the argument count; core identity From<T> for T assumed (axiom_into_self); str extensionality (axiom_str_ext); a datum has fewer than 2^64 pairs (axiom_spine_fits, used for the argument counter)',
                 'executable rewrite inside compile_if: the slice-pattern match is desugared to length tests and indexing (Verus has no slice patterns)',
             ]},
-    'C05': {'groups': ['cont', 'runone'], 'search': 'search_cont',
+    'C05': {'groups': ['cont', 'runone', 'heap'], 'search': 'search_cont',
             'assumptions': [
                 'scope: the capture / restore laws of Stack and Vm (to_continuation, restore_continuation, push, pop, grow, clear) and the call/cc procedure (capture after popping argument count and receiver, before the instruction pointer is moved back; receiver returned; continuation object and argc 1 pushed); the invocation arm of run_one (CALL / TCALL with a continuation in %acc) is verified in group runone: for an invocation with one argument (the domain of the property): pop the argument count and the value cell, restore the captured control state, deliver that very cell in %acc; nothing is demanded of (k) or (k v w ..); run_one there is scoped by precondition to call instructions (see C04) and requires the capture to be well-formed and no longer than the running stack', 'Vm::pop (the dereferencing pop, not used by the invocation arm) carries an assumed contract so that a change to it stays decidable',
                 'Continuation is opaque to Verus (derive(Clone) over a tuple field, private fields): its four getters and the struct literal in Vm::to_continuation carry assumed contracts',
                 'restore_continuation requires the saved stack to be no longer than the running one; this holds because stacks never shrink (every Stack operation under contract keeps or doubles the length) but is a whole-history fact, assumed at the call site',
                 '<[T]>::to_vec / clone_from_slice specs assumed',
             ]},
-    'C14': {'groups': ['builtins'], 'search': 'search_list',
+    'C14': {'groups': ['builtins', 'heap'], 'search': 'search_list',
             'kani': [
                 {'harness': 'vcell_accessors', 'file': 'src/vm/vcell.rs', 'kind': 'complete', 'timeout': 600, 'what': 'VCell::as_ptr/as_argc/as_car/as_cdr/as_bp/as_ep/as_ip/is_pair answer Ok(payload) exactly on the matching variant (their contracts are assumed on the Verus side)'},
             ],
             'assumptions': [
                 'scope: the vector procedures vector, make-vector, vector-length, vector-ref, vector-set!, vector-fill!, vector->list, list->vector, vector-copy (start index), vector-copy! and the pair/list procedures cons, car, cdr, set-car!, set-cdr!, list-ref, list-tail, reverse and the list-copying helper clone_list that append uses (a fresh chain of allocated pairs with the very car fields of the argument, ending in a fresh () cell; nothing allocated before changes); append itself (Verus: for-loops do not support `continue`), equal?, and the library procedures written in Scheme (length, map, memq, assq, ...) are NOT under contract', 'vector->list / reverse build fresh lists: list_of / plist say every pair of the result is an allocated cell, the cars designate the very elements (a pointer is kept, another value sits in an allocated cell holding it), the order is right, the list ends in (), and heap_ext says no cell that was allocated before is changed; reverse requires that the cdr fields along its argument designate allocated cells (a reachable list never points into free cells: collector soundness, C03) and, like list->vector, does not terminate on a circular list',
-                'in this group the heap is opaque: Heap::get / put / get_at_index_mut carry assumed contracts over heap_deref / heap_live (what a pointer designates, which cells are allocated); the put contract restates what unit heap proves about the real body',
+                'in group builtins the heap is opaque: Heap::get / put / get_at_index_mut carry assumed contracts over the views heap_deref / heap_live (what a pointer designates, which cells are allocated).  The put and get_at_index_mut models are ONE text (specs/builtin.py: PUT_MODEL_TEMPLATE, GIM_MODEL_TEMPLATE) instantiated twice: over uninterpreted views where they are assumed, and over the concrete views (cells / state map) in unit heap, where Heap::put and Heap::get_at_index_mut are VERIFIED to satisfy them (group heap runs under this property for that).  Writing the proof down showed that the first assumed model was wrong for a symbol whose name is already interned (it claimed a fresh cell); the model was corrected.  Heap::get (Cow argument) stays assumed',
                 'stores into the interior-mutable Vector are tracked as events: vector_written(v, i, x) can only be established by Vector::put(i, x); "no other slot is written" (frame) is not expressible and not decided; overlapping vector-copy! on one vector is not decided',
                 'Vector::put carries the precondition index < length, so its silently-ignore branch is proved dead at every call site',
                 'the typed poppers pop_argc / pop_number / pop_index / pop_vector are verified (not assumed) against Heap::get (assumed: heap_deref), Number::to_usize (assumed) and the Display specs of Cell / Number used in their error text',
